@@ -64,6 +64,15 @@ impl<const BASE: Word> Repr<BASE> {
             r <= 2 * ndigits(BASE as int, self.significand.v()) + 2,
             self.significand.v() == 0 ==> r == 0,
     { unimplemented!() }
+    // `Repr::digits_lb` (f32 under-estimate: floor of a lower bound of log_B|significand|): NOT used by the unchanged
+    // functions under contract; present so that a changed function calling it is judged. ASSUMED: at most digits - 1
+    // (0 for a zero significand).
+    #[verifier::external_body]
+    pub fn digits_lb(&self) -> (r: usize)
+        ensures r <= ndigits(BASE as int, self.significand.v()),
+            self.significand.v() != 0 ==> r < ndigits(BASE as int, self.significand.v()),
+            self.significand.v() == 0 ==> r == 0,
+    { unimplemented!() }
 }
 
 /// utils::split_digits: v == hi*B^pos + lo, |lo| < B^pos, "the sign is applied to both parts".
